@@ -108,6 +108,40 @@ theorem post_intro {α} {k k' : Nat} {R : α → Prop} {a : α} {s' : PState}
 
 end
 
+/-! ### tokens in collected implicit data -/
+
+/-- Tokens of implicit texts / movements (they end up in the state and may be reported by the duplicate
+label checks at the end of `ParseProgram`). -/
+def ImpOK (T : List Tok) (E : Tok) (d : ImpData) : Prop :=
+  (∀ x ∈ d.texts, Tin T E x.text) ∧ (∀ m ∈ d.movements, Tin T E m.cmdTok)
+
+theorem impok_empty (T : List Tok) (E : Tok) : ImpOK T E {} :=
+  ⟨fun _ h => absurd h List.not_mem_nil, fun _ h => absurd h List.not_mem_nil⟩
+
+theorem impok_add {T : List Tok} {E : Tok} {a b : ImpData} (ha : ImpOK T E a) (hb : ImpOK T E b) :
+    ImpOK T E (a.add b) := by
+  refine ⟨fun x hx => ?_, fun m hm => ?_⟩
+  · rcases List.mem_append.1 hx with h | h
+    · exact ha.1 x h
+    · exact hb.1 x h
+  · rcases List.mem_append.1 hm with h | h
+    · exact ha.2 m h
+    · exact hb.2 m h
+
+theorem impok_addText {T : List Tok} {E : Tok} {d : ImpData} {x : ImpText} (hd : ImpOK T E d)
+    (hx : Tin T E x.text) : ImpOK T E { d with texts := d.texts ++ [x] } := by
+  refine ⟨fun y hy => ?_, hd.2⟩
+  rcases List.mem_append.1 hy with h | h
+  · exact hd.1 y h
+  · rw [List.mem_singleton] at h; subst h; exact hx
+
+theorem impok_addMovement {T : List Tok} {E : Tok} {d : ImpData} {x : ImpMovement} (hd : ImpOK T E d)
+    (h1 : Tin T E x.cmdTok) : ImpOK T E { d with movements := d.movements ++ [x] } := by
+  refine ⟨hd.1, fun y hy => ?_⟩
+  rcases List.mem_append.1 hy with h | h
+  · exact hd.2 y h
+  · rw [List.mem_singleton] at h; subst h; exact h1
+
 /-! ### window normal forms -/
 
 theorem drop_tail_tok (T : List Tok) (k : Nat) : (T.drop k).tail = T.drop (k + 1) := by
@@ -297,6 +331,7 @@ macro_rules
       | assumption
       | (apply And.intro)
       | (apply post_intro)
+      | (exact impok_empty _ _) | (apply impok_add) | (apply impok_addText) | (apply impok_addMovement)
       | (exact el_range _ _ _ _ _ (by omega))
       | (apply Inv.upd) | (apply Inv.setSid) | (apply Inv.setB) | (apply Inv.setC)
       | (show (_ : Nat) ≤ _; omega)
